@@ -43,12 +43,22 @@ def sym_model(name):
             st = S.state()
             return symnp.array(fresh(call, b.shape[0], st))
         return model
+    if name == "functional":
+        # unconstrained but deterministic: the same (A, b) (same normal forms) gets the same symbols
+        def model(A, b, call):
+            st = S.state()
+            key = ("spsolve", tuple(x.key() for x in A.values()), tuple(x.key() for x in b.values()))
+            memo = st.memo.setdefault("spsolve_memo", {})
+            if key not in memo:
+                memo[key] = fresh(len(memo), b.shape[0], st)
+            return symnp.array(list(memo[key]))
+        return model
     raise KeyError(name)
 
 
 def install_numeric(name, r, rng):
     """Numeric counterpart: returns an undo callable."""
-    if name in (None, "constrained"):
+    if name in (None, "constrained", "functional"):
         return lambda: None
     if name == "fault":
         import numpy
